@@ -125,16 +125,14 @@ class Checker(C.BaseChecker):
             else:
                 self.ok()
 
-        # ---- antecedent: exactness is relative to TocInv (DESIGN C07: "supplied by C06") ---------------------
+        # ---- a raw tree out of sync (C06 reports that, with the operation that broke it) is judged all the same: the statement is
+        # about what get/in/query answer, whatever the bookkeeping looks like
         S = st.scan
         broken = C.toc_inv_raw(S)
         if broken:
-            # the raw tree is out of sync (C06 reports that, with the operation that broke it); retrieval/query exactness
-            # is not judged on such a state
             self.skipped_tocinv = getattr(self, "skipped_tocinv", 0) + 1
             if self.skipped_tocinv == 1:
-                rec.notes.append(f"state violates TocInv ({broken[0][0]}: {broken[0][1][:160]}) after {st.kind} {json.dumps(st.history)[:300]}: C07 is relative to TocInv (C06's finding), not judged on such states")
-            return
+                rec.notes.append(f"state violates TocInv ({broken[0][0]}: {broken[0][1][:160]}) after {st.kind} {json.dumps(st.history)[:300]}: retrieval and queries are judged on such states too")
 
         # ---- (1) what is attached (raw tree) == model -----------------------------------------------
         raw_att = {p: d for p, d in C.attached_of_scan(S).items() if p not in S.get("stray_nodes", {})}  # junk below reserved names: C08/C06
